@@ -405,6 +405,57 @@ class Ctx:
             res.append(all(any(x2 == x1 and sym._contradict(v1, v2) for (x1, v1) in alt for (x2, v2) in d) for alt in alts))
         return bool(res) and all(res)
 
+    def strs_entail_call(self, body, pcs, callee, args, value):
+        """like pc_entails_call for a condition given as a list of disjuncts of atom strings"""
+        s, _ = self.sym(body)
+        e = ("call", callee, tuple(args), ())
+        direct = "%s=%s" % (sym.show(e, s), value)
+        alts = sym.predicate_alternatives(body.crate, (e, not value), any_vis=True)
+        if alts is not None:
+            dnf = set()
+            for alt in alts:
+                cur = frozenset()
+                for (x, y) in alt:
+                    a_ = sym.normalise_atom(x, y) if isinstance(y, bool) else (x, y)
+                    cur = sym._add_atom(cur, a_) if cur is not None else None
+                if cur is not None:
+                    dnf.add(cur)
+            alts = [[(sym.show(x, s), y) for (x, y) in d] for d in self._expand_atoms(body, dnf)]
+        res = []
+        for d in pcs or []:
+            if direct in d:
+                res.append(True)
+                continue
+            if alts is None:
+                res.append(False)
+                continue
+            have = {}
+            for a_ in d:
+                l, _, r = a_.rpartition("=")
+                have.setdefault(l, []).append(r)
+
+            def contra(x, y):
+                for r in have.get(x, []):
+                    if isinstance(y, bool):
+                        if r in ("True", "False") and r != str(y):
+                            return True
+                    elif isinstance(y, tuple) and y and y[0] == "not-in":
+                        if r in [str(v) for v in y[1]]:
+                            return True
+                    else:
+                        if r.startswith("('not-in'"):
+                            import ast
+                            try:
+                                if y in ast.literal_eval(r)[1]:
+                                    return True
+                            except (ValueError, SyntaxError):
+                                pass
+                        elif r not in ("True", "False") and r != str(y):
+                            return True
+                return False
+            res.append(all(any(contra(x, y) for (x, y) in alt) for alt in alts))
+        return bool(res) and all(res)
+
     def forbids(self, rule, body, blk, event, atoms):
         """No path to `blk` satisfies all of `atoms` together (regexes)."""
         disj = self.pc_strs(body, blk)
